@@ -87,7 +87,7 @@ def _where(exc):
 
 FIELD_VALUES = [
     ("url_schemes", "[http, mailto]"), ("url_schemes", "{http: null, x: 'y{{path}}', z: {url: 'u', title: 't', classes: [c]}}"), ("enable_extensions", "[deflist, tasklist, dollarmath, colon_fence, html_image]"),
-    ("disable_syntax", "[emphasis]"), ("heading_anchors", "3"), ("heading_anchors", "null"), ("fence_as_directive", "[mermaid]"), ("number_code_blocks", "[python]"), ("title_to_header", "true"),
+    ("disable_syntax", "[emphasis]"), ("disable_syntax", "[math_inline, colon_fence, nosuchrule]"), ("words_per_minute", "0"), ("words_per_minute", "-5"), ("heading_anchors", "3"), ("heading_anchors", "null"), ("fence_as_directive", "[mermaid]"), ("number_code_blocks", "[python]"), ("title_to_header", "true"),
     ("all_links_external", "true"), ("links_external_new_tab", "true"), ("footnote_sort", "false"), ("footnote_transition", "false"), ("html_meta", "{a: b}"), ("substitutions", "{k: v, n: 1, l: [1]}"),
     ("sub_delimiters", "['[', ']']"), ("words_per_minute", "10"), ("heading_slug_func", "myst_parser.config.main._test_slug_func"), ("suppress_warnings", "[myst.header]"),
     ("ref_domains", "[py]"), ("commonmark_only", "true"), ("inventories", "{k: ['https://x.invalid', null]}"), ("highlight_code_blocks", "false"), ("enable_checkboxes", "true"),
@@ -476,6 +476,177 @@ def make_html(eng):
     return body
 
 
+# ------------------------------------------------------------ L13: front-matter value types, odd URLs, empty option values of every registered directive
+
+FM_VALUES = ["a: [2020-01-01]", "a: 2020-01-01", "a: !!binary aGk=", "a: !!set {x, y}", "a: 2020-13-45", "a: 2020-01-01T25:00:00", "a: " + "[" * 400 + "]" * 400, "a: {b: [1, {c: 2.5}], d: null}",
+             "a: !!timestamp x", "a: 0x1G", "a: .inf", "? [complex, key]\n: v", "date: 2020-01-01\nauthors: [a, b]\nabstract: '*md*'", "a: !!omap [x: 1]", "a: !!pairs [x: 1, x: 2]", "1: int key\n2.5: float key\nnull: null key"]
+ODD_LINKS = ["<inv://[x>", "[a](inv://[x)", "[a](http://[x)", "<http://[::1>", "[a](mailto:[x)", "[a](inv:k:std:label#x%00y)", "[a](%00)", "[a](#%00)", "[a](x%ZZ)", "<project:#a%00b>", "[a](http://%5Bx)",
+             "[a](inv:%5B#x)", "[a](//[x/y)", "![img](http://[x)", "[a](ftp://[x \"title\")"]
+
+
+def _all_directive_options():
+    """(directive name, option name, needs argument) for every directive of the docutils registry."""
+    from docutils.parsers.rst import directives
+    from docutils.parsers.rst.languages import en
+
+    out = []
+    for name in sorted(directives._directive_registry):
+        try:
+            cls, _ = directives.directive(name, en, None)
+        except Exception:  # noqa
+            continue
+        if cls is None:
+            continue
+        for opt in sorted(cls.option_spec or {}):
+            if (name, opt) == ("target-notes", "name"):
+                continue  # docutils' own defect: '.. target-notes::' with ':name:' fails in its TargetNotes transform in reStructuredText too
+            out.append((name, opt, cls.required_arguments > 0, bool(cls.has_content)))
+    return out
+
+
+DIR_OPTS = []
+
+
+def run_more(kind, i, real=False):
+    if kind == "fm":
+        text = "---\n" + FM_VALUES[i] + "\n---\n\nbody\n"
+        over = {}
+    elif kind == "link":
+        text = "before " + ODD_LINKS[i] + " after\n"
+        over = {"myst_url_schemes": {"http": {"url": "{{scheme}}://{{netloc}}/{{path}}", "title": "{{path}}"}, "mailto": None, "ftp": None}, "myst_inventories": {"k": ["https://x.invalid/", "/nonexistent-symx/objects.inv"]}}
+    else:
+        name, opt, needs_arg, has_content = DIR_OPTS[i]
+        text = "```{%s}%s\n:%s:\n%s```\n\nafter\n" % (name, " arg.png" if needs_arg else "", opt, "\nbody\n" if has_content else "")
+        over = {}
+    return CR.publish(text, dict(over, report_level=5, file_insertion_enabled=False), real=real)
+
+
+def make_more(eng, kind):
+    setup()
+    if not DIR_OPTS:
+        DIR_OPTS.extend(_all_directive_options())
+    n = {"fm": len(FM_VALUES), "link": len(ODD_LINKS), "diropt": len(DIR_OPTS)}[kind]
+    c = CR.Choice(eng, n=4, width=31)
+    state = {}
+    eng.witness_fn = lambda m: dict(state)
+
+    def body():
+        c.reset()
+        i = c.choose((n + 31) // 32) * 32 + c.choose(32)  # two-level choice: the case-split cap is 64
+        if i >= n:
+            raise core.PathAbort("index out of range")
+        state.update(more=[kind, i], what=(FM_VALUES[i] if kind == "fm" else ODD_LINKS[i] if kind == "link" else list(DIR_OPTS[i]))[:3] if kind == "diropt" else (FM_VALUES[i][:60] if kind == "fm" else ODD_LINKS[i]))
+        try:
+            doc, warn = run_more(kind, i)
+        except Exception as exc:  # noqa
+            eng.fail("pipeline-raises", "%s %r: %s" % (kind, state["what"], _where(exc)))
+        eng.passed(1)
+        eng.note("fault-reported")
+        return "ok"
+
+    return body
+
+
+# ------------------------------------------------------------ L14: one name used by several kinds of targets
+
+NAME_CLASH_DOCS = [
+    "ref[^a]\n\n[^a]: note\n\n(a)=\npara\n",
+    "[^a]: note\n\n{#a}\npara\n\nref[^a] [](#a)\n",
+    "[^a]: note\n\n```{note}\n:name: a\n\nb\n```\n\nref[^a]\n",
+    "# a\n\n(a)=\n# b\n\n[](#a) ref[^a]\n\n[^a]: n\n",
+    "{#x}\n# A\n\n{#x}\n# B\n\n[](#x)\n",
+    "{#x}\n# A\n\n{#x}\npara\n",
+    "(x)=\n(x)=\n# A\n\n[](#x)\n",
+    "[^1]: one\n\n[^1]: again\n\n(1)=\npara [^1]\n",
+    "```{figure} a.png\n:name: f\n\ncap\n```\n\n```{figure} b.png\n:name: f\n\ncap\n```\n\n[](#f)\n",
+    "$$\na\n$$ (eq)\n\n$$\nb\n$$ (eq)\n\n{eq}`eq`\n",
+]
+
+
+def run_names(i, sort, real=False):
+    return CR.publish(NAME_CLASH_DOCS[i], {"myst_enable_extensions": ["attrs_block", "dollarmath"], "myst_footnote_sort": sort, "myst_heading_anchors": 2, "report_level": 5}, real=real)
+
+
+def make_names(eng):
+    setup()
+    c = CR.Choice(eng, width=31)
+    state = {}
+    eng.witness_fn = lambda m: dict(state)
+
+    def body():
+        c.reset()
+        i, sort = c.choose(len(NAME_CLASH_DOCS)), bool(c.choose(2))
+        state.update(names_doc=i, sort=sort)
+        try:
+            run_names(i, sort)
+        except Exception as exc:  # noqa
+            eng.fail("pipeline-raises", "document %r (footnote_sort=%s): %s" % (NAME_CLASH_DOCS[i], sort, _where(exc)))
+        eng.passed(1)
+        eng.note("fault-reported")
+        return "ok"
+
+    return body
+
+
+# ------------------------------------------------------------ L10b: odd link destinations through a real Sphinx build
+
+SPHINX_LINKS = ["[a](%00)", "[c](project:x%00y.md)", "<project:#a%00b>", "[a](inv://[x)", "[a](" + "a" * 300 + ".md)", "[a](sub/" + "b" * 300 + ")", "[a](x%ZZ.md)", "[a](../../../up.md#frag)", "[a](http://[x)", "<project:" + "c" * 300 + ".md>",
+                "[a](nosuch.md#%00)", "[](%00.md)"]
+SPXB = {}
+
+
+def run_sphinx_doc(i, real=False):
+    import io, sys
+    from sphinx.application import Sphinx
+    from sphinx.util.docutils import docutils_namespace, patch_docutils
+
+    saved = {}
+    if not real:
+        for name, mod in SPXB.items():
+            saved[name] = sys.modules.get(name)
+            sys.modules[name] = mod
+    try:
+        with tempfile.TemporaryDirectory(prefix="symx_c01_") as d:
+            open(os.path.join(d, "conf.py"), "w").write("extensions = ['myst_parser']\n")
+            open(os.path.join(d, "index.md"), "w").write("# T\n\nbefore " + SPHINX_LINKS[i] + " after\n")
+            warn = io.StringIO()
+            with docutils_namespace(), patch_docutils(d):
+                app = Sphinx(d, d, os.path.join(d, "_build"), os.path.join(d, "_build", ".doctrees"), "dummy", status=None, warning=warn, freshenv=True, parallel=0)
+                app.build()
+            return warn.getvalue()
+    finally:
+        for name, mod in saved.items():
+            if mod is None:
+                sys.modules.pop(name, None)
+            else:
+                sys.modules[name] = mod
+
+
+def make_sphinx_build_links(eng):
+    setup()
+    if not SPXB:
+        from symx.instrument import load_instrumented
+
+        SPXB.update(load_instrumented(["myst_parser.mdit_to_docutils.sphinx_", "myst_parser.parsers.sphinx_", "myst_parser.sphinx_ext.myst_refs"], using=CR.R))
+    c = CR.Choice(eng, width=31)
+    state = {}
+    eng.witness_fn = lambda m: dict(state)
+
+    def body():
+        c.reset()
+        i = c.choose(len(SPHINX_LINKS))
+        state.update(sphinx_doc=i)
+        try:
+            run_sphinx_doc(i)
+        except Exception as exc:  # noqa
+            eng.fail("sphinx-build-raises", "link %r: %s: %s" % (SPHINX_LINKS[i][:60], type(exc).__name__, str(exc)[:200]))
+        eng.passed(1)
+        eng.note("fault-reported")
+        return "ok"
+
+    return body
+
+
 # ------------------------------------------------------------ soup
 
 
@@ -509,6 +680,15 @@ def families(tier, seed):
                     nontrivial="fault-reported", max_forks=100000))
     F.append(Family("L12-html", make_html, "%d HTML snippets (valueless attributes on nested tags, unclosed elements, marked sections, bad references, nested convertible blocks) x the four html_image/html_admonition combinations through the pipeline" % len(HTML_SNIPPETS),
                     nontrivial="fault-reported", max_forks=100000))
+    F.append(Family("L13-frontmatter-values", make_more, "%d front-matter values of YAML types that are not JSON types (dates, binary, sets, ordered maps, non-string keys), invalid timestamps, deep nesting" % len(FM_VALUES), args=dict(kind="fm"),
+                    nontrivial="fault-reported", max_forks=100000))
+    F.append(Family("L13-odd-links", make_more, "%d links / images whose destination has an invalid IPv6 netloc, NUL bytes or bad percent escapes, with dict-valued url_schemes and an unloadable inventory" % len(ODD_LINKS), args=dict(kind="link"),
+                    nontrivial="fault-reported", max_forks=100000))
+    F.append(Family("L13-empty-directive-options", make_more, "every option of every directive in the docutils registry written with an empty value (converters receive None)", args=dict(kind="diropt"),
+                    nontrivial="fault-reported", max_forks=100000))
+    F.append(Family("L14-name-clashes", make_names, "%d documents in which one name is used by several targets (footnote label, explicit target, attribute id, directive :name:, heading, math label) x footnote_sort" % len(NAME_CLASH_DOCS),
+                    nontrivial="fault-reported", max_forks=100000))
+    F.append(Family("L10b-sphinx-build-links", make_sphinx_build_links, "%d odd link destinations (NUL bytes, over-long names, bad escapes, invalid IPv6 netloc) through a real Sphinx build" % len(SPHINX_LINKS), nontrivial="fault-reported", max_forks=1000))
     F.append(Family("L10-sphinx-link", make_sphinx_link, "SphinxRenderer.render_link_unknown with destinations incl. over-long path components and NUL", nontrivial="fault-reported", max_forks=100000))
     soup = "#[](>-`{}:\na"
     for n in ([3] if q else [3, 4]):
@@ -534,6 +714,17 @@ def replay(label, witness):
         if "dest" in witness:
             run_sphinx_link(witness["dest"], real=True)
             return None
+        if "sphinx_doc" in witness:
+            run_sphinx_doc(witness["sphinx_doc"], real=True)
+            return None
+        if "names_doc" in witness:
+            run_names(witness["names_doc"], witness["sort"], real=True)
+            return None
+        if "more" in witness:
+            if not DIR_OPTS:
+                DIR_OPTS.extend(_all_directive_options())
+            run_more(witness["more"][0], witness["more"][1], real=True)
+            return None
         if "html" in witness:
             from docutils import nodes
 
@@ -553,7 +744,7 @@ def replay(label, witness):
 
         tb = traceback.extract_tb(e.__traceback__)
         where = tb[-1].name if tb else "?"
-        what = witness.get("site") or witness.get("fault") or ("dest" in witness and "sphinx-link") or ("subs" in witness and "substitutions") or ("html" in witness and "html block") or "document"
+        what = witness.get("site") or witness.get("fault") or ("dest" in witness and "sphinx-link") or ("subs" in witness and "substitutions") or ("html" in witness and "html block") or ("sphinx_doc" in witness and "Sphinx build with link %r" % (SPHINX_LINKS[witness["sphinx_doc"]][:60],)) or ("names_doc" in witness and "name-clash document %r" % (NAME_CLASH_DOCS[witness["names_doc"]],)) or ("more" in witness and "%s %r" % (witness["more"][0], witness.get("what"))) or "document"
         return ("C01/exception:%s@%s" % (type(e).__name__, where), "%s %r raised %s: %s" % (what, witness, type(e).__name__, str(e)[:200]))
 
 
